@@ -1095,6 +1095,13 @@ HLPread(accrec_t *access_rec, int32 length, void *datap)
     if (access_rec->posn + length > info->length)
         length = info->length - access_rec->posn;
 
+    /* at (or beyond) the end of the element there is nothing to read, and
+       possibly no block table to look at */
+    if (length < 0)
+        HGOTO_ERROR(DFE_RANGE, FAIL);
+    if (length == 0)
+        HGOTO_DONE(0);
+
     /* search for linked block to start reading from */
     if (relative_posn < info->first_length) { /* first block */
         block_idx      = 0;
